@@ -42,6 +42,9 @@ def sha(b):
     return hashlib.sha1(b).hexdigest()[:16]
 
 
+PRIMARY = []
+
+
 class Check:
     """Collects counters, samples, violations and known findings for one run."""
 
@@ -62,6 +65,8 @@ class Check:
         self.controls = 0          # negative controls that were (correctly) rejected
         with open(FINDINGS) as fh:
             self.findings = json.load(fh)
+        if not PRIMARY:
+            PRIMARY.append(self)       # the first Check of a run is the one whose verdict is reported
 
     # -- bookkeeping -------------------------------------------------------
     def add_tlc(self, res, label=None):
